@@ -393,8 +393,7 @@ def rule_sort_key_objects(repo, rep):
                 ok = bool(pos_idx) and min(pos_idx) < min(pos_obj)
                 rep.check(ok, "C14-c", f"{m.rel}:{q}", f"`{str(norm(c))[:90]}`: a position from enumerate precedes the object in the key tuple",
                           "ties in the leading components are broken by comparing the objects themselves (Tensor.__lt__ compares per-run ids): two tensors of the same name change places between runs")
-    if n < 2:
-        raise AnalysisError(f"sorted() over key tuples that carry their element: {n} found")
+    rep.floor("C14-c", 2)
 
 
 def rule_order(repo, rep):
